@@ -1,5 +1,5 @@
 (* Proofs about Image/Quantize.v, part 1: for every non-empty rectangular image of
-   byte colours and every requested size k >= 1, palette extraction (with or
+   byte colours with at most 2^56 pixels (img_ok) and every requested size k >= 1, palette extraction (with or
    without subsampling) succeeds with 1 <= |palette| <= max(k,8); quantize succeeds,
    the index image has the size of the input, every index is below |palette|
    (whatever the dithering error did to the query colour), and without dithering
